@@ -41,6 +41,7 @@ InitState ==
       failures |-> 0,
       conn     |-> 0,          \* ordinal of the current / latest connection
       addr     |-> 1,          \* address the next attempt goes to
+      sync     |-> 0,          \* the next connection attempt completes inside endpoint.connect(): 0 no | 1 succeeds | 2 fails
       down     |-> "none" ]    \* none | pending | fired   (Deferred returned by close)
 
 NoOut ==
@@ -134,12 +135,17 @@ DoDisconnect(s) ==
     THEN [s |-> [s EXCEPT !.lose = TRUE], out |-> [NoOut EXCEPT !.lose = ~s.lose]]
     ELSE [s |-> s, out |-> NoOut]
 
-DoClose(s) ==
+\* `win`: the attempt that close() cancels has just succeeded (the connection wins the race with the
+\* cancellation and the endpoint delivers it from inside cancel()): it is dropped at once, nothing is written
+DoClose(s, win) ==
     LET f == {<<s.tbl[i].id, "closed", 0>> : i \in {j \in DOMAIN s.tbl : ~s.tbl[j].canc}}
         s1 == [s EXCEPT !.tbl = <<>>, !.closing = TRUE] IN
     CASE s.link = "up" ->
            [s |-> [s1 EXCEPT !.lose = TRUE, !.down = "pending"],
             out |-> [NoOut EXCEPT !.fired = f, !.lose = ~s.lose]]
+      [] s.link = "connecting" /\ win ->
+           [s |-> [s1 EXCEPT !.link = "up", !.conn = @ + 1, !.failures = 0, !.mid = 0, !.lose = TRUE, !.down = "pending"],
+            out |-> [NoOut EXCEPT !.fired = f, !.ccancel = TRUE, !.lose = TRUE]]
       [] s.link = "connecting" ->
            [s |-> [s1 EXCEPT !.link = "idle", !.down = "fired"],
             out |-> [NoOut EXCEPT !.fired = f, !.ccancel = TRUE, !.down = TRUE]]
@@ -150,6 +156,17 @@ DoClose(s) ==
            [s |-> [s1 EXCEPT !.down = "fired"], out |-> [NoOut EXCEPT !.fired = f, !.down = TRUE]]
 
 DoReaddress(s, a) == [s |-> [s EXCEPT !.addr = a], out |-> NoOut]
+
+\* The environment decides that the next connection attempt completes synchronously (an endpoint may return a
+\* Deferred that has already fired): nothing observable until that attempt is made.
+DoArm(s, x) == [s |-> [s EXCEPT !.sync = x], out |-> NoOut]
+
+Merge(o1, o2) ==
+    [ fired |-> o1.fired \cup o2.fired, wrote |-> o1.wrote \o o2.wrote,
+      connect |-> IF o1.connect # 0 THEN o1.connect ELSE o2.connect,
+      ccancel |-> o1.ccancel \/ o2.ccancel, timer |-> IF o1.timer # 0 THEN o1.timer ELSE o2.timer,
+      tcancel |-> o1.tcancel \/ o2.tcancel, lose |-> o1.lose \/ o2.lose, down |-> o1.down \/ o2.down,
+      raised |-> o1.raised ]
 
 \* Is event e physically possible in state s?  (Environment guard: a reply
 \* needs an open connection, a timer must be pending, ...)
@@ -165,11 +182,12 @@ Possible1(s, e) ==
       [] e.a = "ConnLost"    -> s.link = "up"
       [] e.a = "Cancel"      -> InTbl(s, e.id) /\ ~Entry(s, e.id).canc
       [] e.a = "Disconnect"  -> TRUE
-      [] e.a = "Close"       -> ~s.closing
+      [] e.a = "Close"       -> ~s.closing /\ (e.x = 1 => s.link = "connecting")
       [] e.a = "Readdress"   -> TRUE
+      [] e.a = "Arm"         -> s.sync = 0 /\ e.x \in {1, 2}
       [] OTHER -> FALSE
 
-Step1(s, e) ==
+Step0(s, e) ==
     CASE e.a = "MakeRequest" -> DoMakeRequest(s, e.id, e.x = 1)
       [] e.a = "ConnectOK"   -> DoConnectOK(s)
       [] e.a = "ConnectFail" -> DoConnectFail(s)
@@ -181,18 +199,22 @@ Step1(s, e) ==
       [] e.a = "ConnLost"    -> DoConnLost(s)
       [] e.a = "Cancel"      -> DoCancel(s, e.id)
       [] e.a = "Disconnect"  -> DoDisconnect(s)
-      [] e.a = "Close"       -> DoClose(s)
+      [] e.a = "Close"       -> DoClose(s, e.x = 1)
       [] e.a = "Readdress"   -> DoReaddress(s, e.x)
+      [] e.a = "Arm"         -> DoArm(s, e.x)
+
+\* An attempt started by this event (a request on an idle client, a backoff timer, a drop with requests
+\* pending) that completes inside endpoint.connect(): its result is handled within the same reactor event.
+Step1(s, e) ==
+    LET r == Step0(s, e) IN
+    IF r.out.connect = 0 \/ r.s.sync = 0 THEN r
+    ELSE LET s0 == [r.s EXCEPT !.sync = 0]
+             r2 == IF r.s.sync = 1 THEN DoConnectOK(s0) ELSE DoConnectFail(s0)
+         IN [s |-> r2.s, out |-> Merge(r.out, r2.out)]
 
 \* Re-entrant callbacks.  The events that carry one complete at most one request, and do so
 \* after the table has been updated, so the callback's API call simply sees the next state:
 \* the composite is the sequential composition of the two steps.
-Merge(o1, o2) ==
-    [ fired |-> o1.fired \cup o2.fired, wrote |-> o1.wrote \o o2.wrote,
-      connect |-> IF o1.connect # 0 THEN o1.connect ELSE o2.connect,
-      ccancel |-> o1.ccancel \/ o2.ccancel, timer |-> IF o1.timer # 0 THEN o1.timer ELSE o2.timer,
-      tcancel |-> o1.tcancel \/ o2.tcancel, lose |-> o1.lose \/ o2.lose, down |-> o1.down \/ o2.down,
-      raised |-> o1.raised ]
 CbRuns(e, o) == e.cb.a # "none" /\ \E f \in o.fired : f[1] = e.id
 Possible(s, e) ==
     /\ Possible1(s, e)
@@ -237,7 +259,8 @@ AllIds == Ids \cup {Foreign}
 Events(st) ==
       {Ev("MakeRequest", i, x) : i \in Ids, x \in {0, 1}}
  \cup {Ev("ConnectOK", 0, 0), Ev("ConnectFail", 0, 0), Ev("Timer", 0, 0), Ev("BadLen", 0, 0),
-       Ev("ConnLost", 0, 0), Ev("Disconnect", 0, 0), Ev("Close", 0, 0)}
+       Ev("ConnLost", 0, 0), Ev("Disconnect", 0, 0), Ev("Close", 0, 0), Ev("Close", 0, 1),
+       Ev("Arm", 0, 1), Ev("Arm", 0, 2)}
  \cup {Ev("Frame", j, 0) : j \in AllIds}
  \cup {Ev("Partial", j, 0) : j \in AllIds}
  \cup {Ev("Rest", j, 0) : j \in AllIds}
@@ -251,7 +274,7 @@ Events(st) ==
 
 InitHist ==
     [ issued |-> <<>>, fires |-> [i \in Ids |-> 0], res |-> [i \in Ids |-> "pending"],
-      wire |-> [c \in 1..MaxConn + 1 |-> <<>>], after |-> FALSE ]
+      wire |-> [c \in 1..MaxConn + 1 |-> <<>>], after |-> FALSE, cameUp |-> FALSE ]
 
 \* ids issued and not yet completed, in issue order
 Pending(hh) == SelectSeq(hh.issued, LAMBDA i : hh.fires[i] = 0)
@@ -267,7 +290,9 @@ UpdHist(hh, st, e, r) ==
       res    |-> [i \in Ids |-> IF \E f \in r.out.fired : f[1] = i
                                 THEN (CHOOSE f \in r.out.fired : f[1] = i)[2] ELSE hh.res[i]],
       wire   |-> IF r.out.wrote # <<>> THEN [hh.wire EXCEPT ![c] = @ \o r.out.wrote] ELSE hh.wire,
-      after  |-> hh.after \/ Did(e, r.out, "Close") ]
+      after  |-> hh.after \/ Did(e, r.out, "Close"),
+      \* this event brought a connection up for use (a connect result, or an attempt that completed synchronously)
+      cameUp |-> r.s.conn # st.conn /\ ~r.s.closing ]
 
 Init == /\ s = InitState /\ ev = Ev("Init", 0, 0) /\ out = NoOut /\ h = InitHist
 
@@ -315,7 +340,7 @@ C10_once_per_conn ==
 \* what is written right after a connection comes up is exactly the pending requests in issue order
 \* (h still counts the no-reply requests completed by this very event as fired, hence the union)
 C10_resend_set ==
-    ev.a = "ConnectOK" =>
+    h.cameUp =>
         out.wrote = SelectSeq(h.issued, LAMBDA i : h.fires[i] = 0 \/ <<i, "none", 0>> \in out.fired)
 \* nothing that already completed is ever written again
 C10_no_resend ==
@@ -324,7 +349,11 @@ C10_no_resend ==
 \* after a drop: reconnect iff something is pending and not closing
 C10_reconnect_iff ==
     ev.a = "ConnLost" =>
-        /\ (Pending(h) # <<>> /\ ~s.closing => out.connect # 0 /\ s.link = "connecting")
+        /\ (Pending(h) # <<>> /\ ~s.closing =>
+                /\ out.connect # 0
+                /\ \/ s.link = "connecting"
+                   \/ h.cameUp /\ s.link = "up"              \* (the attempt completed synchronously)
+                   \/ out.timer # 0 /\ s.link = "backoff")
         /\ (Pending(h) = <<>> \/ s.closing => out.connect = 0 /\ s.link = "idle")
 \* an idle dropped connection is re-opened by the next request
 C10_reopen_on_request ==
@@ -333,7 +362,8 @@ C10_reopen_on_request ==
 \* backoff between failed attempts follows the policy, failure count reset by success
 C10_backoff ==
     /\ (ev.a = "ConnectFail" => out.timer = Delay(s.failures) /\ s.failures >= 1)
-    /\ (ev.a = "ConnectOK" => s.failures = 0)
+    /\ (out.timer # 0 => s.failures >= 1 /\ out.timer = Delay(s.failures))
+    /\ (ev.a = "ConnectOK" \/ h.cameUp => s.failures = 0)
 \* closing fails everything pending, cancels any attempt, makes no further ones
 C10_close ==
     /\ (h.after => out.connect = 0 /\ out.timer = 0 /\ out.wrote = <<>>)
